@@ -85,15 +85,12 @@ def shrink_and_replay(prop, violations, max_sigs=4):
     os.makedirs(kernel.REPLAY_DIR, exist_ok=True)
     for sig, r in list(by_sig.items())[:max_sigs]:
         def run(plan):
-            mod.reset_world()
-            return mod.execute(plan)
+            return mod.execute_isolated(plan)
         best, res, steps = shrink(r['plan'], run, sig, mod.shrink_candidates, budget=mod.SHRINK_BUDGET if hasattr(mod, 'SHRINK_BUDGET') else 500)
-        mod.reset_world()
-        final = mod.execute(best, want_trace=True)
+        final = mod.execute_isolated(best, want_trace=True)
         if not final['violation'] or final['violation']['signature'] != sig:
             best, final = r['plan'], None
-            mod.reset_world()
-            final = mod.execute(best, want_trace=True)
+            final = mod.execute_isolated(best, want_trace=True)
         name = f"{prop}-{r['cls']}-{r['index']}-{kernel.h64(sig) % 10**6:06d}.json"
         path = os.path.join(kernel.REPLAY_DIR, name)
         doc = {'property': prop, 'signature': sig, 'violation': final['violation'], 'digest': final['digest'],
@@ -123,8 +120,7 @@ def cmd_replay(path):
     prop = doc['property']
     kernel.import_repo()
     mod = importlib.import_module(MODULES[prop])
-    mod.reset_world()
-    res = mod.execute(doc['plan'], want_trace=True)
+    res = mod.execute(doc['plan'], want_trace=True)   # this process is fresh: nothing has used pane yet
     v = res['violation']
     if v and v['signature'] == doc['signature'] and res['digest'] == doc['digest'] and v['op_index'] == doc['violation']['op_index']:
         print(f"replayed: {v['signature']} at operation {v['op_index']}: {v['detail']}")
